@@ -140,6 +140,21 @@ MUTANTS = [
      "        if self._paused or not self._recording:\n            return", "        if not self._recording:\n            return"),
     ("c17_subdivide_skips_footer_and_reopens_same", "C17", DS,
      "        new_filename = f\"{base_name}_{self.sub_index:04d}{self.formatter_cls.ext}\"", "        new_filename = f\"{base_name}_{max(self.sub_index, 2):04d}{self.formatter_cls.ext}\""),
+    ("c09_contextvar_becomes_global", "C09", V,
+     "_VALIDATION_ENABLED: ContextVar[bool] = ContextVar(\"_VALIDATION_ENABLED\", default=True)",
+     "class _GlobalFlag:\n    def __init__(self):\n        self.v = True\n    def get(self):\n        return self.v\n    def set(self, x):\n        old = self.v\n        self.v = x\n        return old\n    def reset(self, tok):\n        self.v = tok\n\n\n_VALIDATION_ENABLED = _GlobalFlag()"),
+    ("c09_write_then_validate", "C09", V,
+     "    def __set__(self, obj: _P, value: Union[int, _C]):\n        if _VALIDATION_ENABLED.get():\n            self.validate_one(value)\n        setattr(obj, self._private_name, value)",
+     "    def __set__(self, obj: _P, value: Union[int, _C]):\n        setattr(obj, self._private_name, value)\n        if _VALIDATION_ENABLED.get():\n            self.validate_one(value)"),
+    ("c09_int_array_upper_bound_off_by_one", "C09", V,
+     "        if (int(max(value)) > self._max) or (min(value) < self._min):", "        if (int(max(value)) > self._max + 1) or (min(value) < self._min):"),
+    ("c09_no_finally", "C09", V,
+     "        try:\n            yield\n        finally:\n            _VALIDATION_ENABLED.reset(token)", "        yield\n        _VALIDATION_ENABLED.reset(token)"),
+    ("c09_string_length_off_by_one", "C09", V,
+     "        if len(value) > (self.len - 1):", "        if len(value) > self.len:"),
+    ("c09_struct_array_checks_first_only", "C09", V,
+     "        if any(not isinstance(v, self._ctype) for v in value):\n            raise TypeError(f\"Expected {value} to be an {self._ctype.__name__}.\")",
+     "        if any(not isinstance(v, self._ctype) for v in list(value)[:1]):\n            raise TypeError(f\"Expected {value} to be an {self._ctype.__name__}.\")"),
     ("c03_size_check_off_by_one", "C03", M,
      "if data_size < 0 or data_size > len(self.data_buffer):", "if data_size < -1 or data_size > len(self.data_buffer):"),
 ]
